@@ -874,6 +874,8 @@ func suiteLiterals(r *Rng, n int, thorough bool, o *Out) {
 		putAttr(&typ, jsonapi.Attr{Name: jsonapi.GetAttrTypeString(k, false), Type: k})
 		putAttr(&typ, jsonapi.Attr{Name: "n" + jsonapi.GetAttrTypeString(k, false), Type: k, Nullable: true})
 	}
+	putAttr(&typ, jsonapi.Attr{Name: "type", Type: jsonapi.AttrTypeString}) // a legal field name
+	putAttr(&typ, jsonapi.Attr{Name: "links", Type: jsonapi.AttrTypeInt, Nullable: true})
 	putRel(&typ, jsonapi.Rel{FromType: "t", FromName: "one", ToOne: true, ToType: "t"})
 	putRel(&typ, jsonapi.Rel{FromType: "t", FromName: "many", ToOne: false, ToType: "t"})
 	putRel(&typ, jsonapi.Rel{FromType: "t", FromName: "one2", ToOne: true, ToType: "t"})
@@ -900,11 +902,29 @@ func suiteLiterals(r *Rng, n int, thorough bool, o *Out) {
 					}
 				}
 			}
+			if pv == "ok" {
+				if m := remarshalVerdict(res, typ, map[string]string{name: strings.TrimSpace(lit)}, nil); m != "" {
+					pv = "FAIL:" + m
+				}
+			}
 			o.stat("accepted." + jsonapi.GetAttrTypeString(a.Type, false))
 		} else {
 			o.stat("rejected." + jsonapi.GetAttrTypeString(a.Type, false))
 		}
 		o.emit(lst("unm", "res", ssx, sxResSke(data)), obs, pv)
+		if r.chance(1, 4) {
+			// the same payload through partial unmarshaling: what is accepted is stored faithfully there too
+			obsP, pvP, part := runUnmarshalRes("UnmarshalPartialResource", data, s, true)
+			if part != nil {
+				if _, has := part.Attrs()[name]; !has {
+					pvP = "FAIL:attribute " + name + " of the payload is not in the partial resource"
+				} else if m := faithful(a, strings.TrimSpace(lit), part.Get(name)); m != "" {
+					pvP = "FAIL:partial, " + jsonapi.GetAttrTypeString(a.Type, a.Nullable) + ": " + m
+				}
+			}
+			o.stat("partial")
+			o.emit(lst("unm", "partial", ssx, sxResSke(data)), obsP, pvP)
+		}
 	}
 	if thorough {
 		// exhaustive for the 8- and 16-bit kinds over a window wider than their range
@@ -926,6 +946,11 @@ func suiteLiterals(r *Rng, n int, thorough bool, o *Out) {
 		name := jsonapi.GetAttrTypeString(k, false)
 		if r.bool() {
 			name = "n" + name
+		}
+		if r.chance(1, 20) {
+			name, k = "type", jsonapi.AttrTypeString
+		} else if r.chance(1, 20) {
+			name, k = "links", jsonapi.AttrTypeInt
 		}
 		var lit string
 		switch {
@@ -982,9 +1007,123 @@ func suiteLiterals(r *Rng, n int, thorough bool, o *Out) {
 					break
 				}
 			}
+			if pv == "ok" {
+				if m := remarshalVerdict(res, typ, nil, objs); m != "" {
+					pv = "FAIL:" + m
+				}
+			}
 		}
 		o.emit(lst("unm", "res", ssx, sxResSke(data)), obs, pv)
 	}
+}
+
+// remarshalVerdict: C06's last clause. The accepted resource is marshaled again with every
+// field and every relationship's data selected; id, type, each attribute of the payload and
+// each relationship linkage of the payload must come out as the same JSON value (integers
+// numerically, strings/booleans/null exactly, times as the same instant, byte strings as the
+// same bytes, to-many linkage as the same multiset of identifiers).
+func remarshalVerdict(res jsonapi.Resource, typ jsonapi.Type, attrs, rels map[string]string) string {
+	relData := map[string][]string{typ.Name: sortedKeys(typ.Rels)}
+	var out []byte
+	if p, msg := guard(func() { out = jsonapi.MarshalResource(res, "", typ.Fields(), relData) }); p {
+		return "re-marshaling the accepted resource panicked: " + msg
+	}
+	n, err := parseJSON(out)
+	if err != nil || n.kind != 'o' {
+		return "re-marshaling the accepted resource does not give a JSON object"
+	}
+	if x := n.get("id"); x == nil || x.kind != 's' || x.text != "1" {
+		return "re-marshaled id differs from the payload's"
+	}
+	if x := n.get("type"); x == nil || x.kind != 's' || x.text != typ.Name {
+		return "re-marshaled type differs from the payload's"
+	}
+	for _, name := range sortedKeys(attrs) {
+		want, err := parseJSON([]byte(attrs[name]))
+		if err != nil {
+			return "harness: bad literal"
+		}
+		got := n.get("attributes").get(name)
+		if got == nil {
+			return "re-marshaled resource lacks attribute " + name
+		}
+		a := typ.Attrs[name]
+		same := false
+		switch {
+		case want.kind == 'n' || got.kind == 'n' || want.kind == 't' || want.kind == 'f':
+			same = want.kind == got.kind
+		case want.kind == '0':
+			x, ok1 := new(big.Int).SetString(want.text, 10)
+			y, ok2 := new(big.Int).SetString(got.text, 10)
+			same = got.kind == '0' && ok1 && ok2 && x.Cmp(y) == 0
+		case want.kind == 's' && got.kind == 's' && a.Type == jsonapi.AttrTypeTime:
+			x, e1 := time.Parse(time.RFC3339, want.text)
+			y, e2 := time.Parse(time.RFC3339, got.text)
+			same = e1 == nil && e2 == nil && x.Equal(y)
+		case want.kind == 's' && got.kind == 's' && a.Type == jsonapi.AttrTypeBytes:
+			x, e1 := base64.StdEncoding.DecodeString(strings.NewReplacer("\r", "", "\n", "").Replace(want.text))
+			y, e2 := base64.StdEncoding.DecodeString(got.text)
+			same = e1 == nil && e2 == nil && bytes.Equal(x, y)
+		case want.kind == 's':
+			same = got.kind == 's' && got.text == want.text
+		}
+		if !same {
+			return fmt.Sprintf("attribute %s: payload %s re-marshals as %s", name, attrs[name], got.sx(new(bool)))
+		}
+	}
+	ident := func(x *jnode) string {
+		if x == nil || x.kind != 'o' || x.get("id") == nil || x.get("type") == nil {
+			return "?"
+		}
+		return x.get("type").text + "\x00" + x.get("id").text
+	}
+	for _, name := range sortedKeys(rels) {
+		obj, err := parseJSON([]byte(rels[name]))
+		if err != nil {
+			return "harness: bad relationship object"
+		}
+		want := obj.get("data")
+		got := n.get("relationships").get(name).get("data")
+		if want == nil {
+			continue
+		}
+		if got == nil {
+			return "re-marshaled resource lacks the linkage of " + name
+		}
+		switch {
+		case want.kind == 'n' && typ.Rels[name].ToOne:
+			if got.kind != 'n' {
+				return "null linkage of " + name + " re-marshals as a value"
+			}
+		case want.kind == 'n':
+			if got.kind != 'a' || len(got.items) != 0 {
+				return "null to-many linkage of " + name + " does not re-marshal as an empty list"
+			}
+		case want.kind == 'o':
+			if id := want.get("id"); got.kind == 'n' && (id == nil || (id.kind == 's' && id.text == "")) {
+				// known finding C06-toone-empty-id (pinned by TestUnmarshalPartialResource)
+				return "to-one linkage identifier without id accepted for " + name + " and re-marshaled as null"
+			}
+			if got.kind != 'o' || ident(got) != ident(want) {
+				return "linkage of " + name + " " + rels[name] + " re-marshals as another identifier: " + got.sx(new(bool))
+			}
+		case want.kind == 'a':
+			if got.kind != 'a' || len(got.items) != len(want.items) {
+				return "linkage of " + name + " re-marshals with another number of identifiers"
+			}
+			a, b := []string{}, []string{}
+			for i := range want.items {
+				a = append(a, ident(want.items[i]))
+				b = append(b, ident(got.items[i]))
+			}
+			sort.Strings(a)
+			sort.Strings(b)
+			if strings.Join(a, "\x01") != strings.Join(b, "\x01") {
+				return "linkage of " + name + " re-marshals as other identifiers"
+			}
+		}
+	}
+	return ""
 }
 
 func linkageVerdict(res jsonapi.Resource, name string, rel jsonapi.Rel, obj string) string {
